@@ -11,12 +11,13 @@ for f in sorted(glob.glob(f"{root}/tools/checks.d/*.json")):
     checks.update(json.load(open(f)))
 notc = json.load(open(f"{root}/tools/not_claimed.json")) if os.path.exists(f"{root}/tools/not_claimed.json") else {}
 hooks_commits = json.load(open(f"{root}/tools/hook_commits.json"))
+ready = set(open(f"{root}/tools/ready.txt").read().split())
 out_checks, na = [], []
 for p in props:
     pid = p["id"]
     c = checks.get(pid)
     have = os.path.exists(f"{root}/harness/src/bin/{pid.lower()}.rs") or os.path.exists(f"{root}/checks/{pid.lower()}.sh")
-    if c and have:
+    if c and have and pid in ready:
         e = {
             "property_id": pid,
             "quick_cmd": f"./check {pid} quick",
